@@ -535,7 +535,17 @@ impl Gen {
                         if reg.len() <= 1 && !self.rng.chance(1, 4) {
                             return None;
                         }
-                        let v = if self.rng.chance(1, 12) { self.rng.pick(&chain).clone() } else { self.rng.pick(&reg).clone() };
+                        // mostly a registered validator; sometimes any chain validator; a removal whose
+                        // redelegation was refused is retried (the validator is no longer registered
+                        // but still holds stake)
+                        let stuck: Vec<String> = sim.w.delegations_of(HUB).into_iter().map(|d| d.0).filter(|v| !reg.contains(v)).collect();
+                        let v = if !stuck.is_empty() && self.rng.chance(1, 3) {
+                            self.rng.pick(&stuck).clone()
+                        } else if self.rng.chance(1, 12) {
+                            self.rng.pick(&chain).clone()
+                        } else {
+                            self.rng.pick(&reg).clone()
+                        };
                         Some(Op::RemoveValidator { sender: OWNER.into(), validator: v })
                     }
                     2 | 3 => {
